@@ -35,7 +35,8 @@ def run_case(d, idx):
     ok = True
     for prop in props:
         env = dict(os.environ, VERIF_REPO=scratch, VERIF_NO_CONCRETISE=os.environ.get('VERIF_NO_CONCRETISE', '1'),
-                   VERIF_EVIDENCE_DIR=os.path.join(VERIF, '.build', 'st_evidence_%d' % idx), VERIF_BUILD_DIR=os.path.join(VERIF, '.build', 'st_build_%d' % idx))
+                   VERIF_EVIDENCE_DIR=os.path.join(VERIF, '.build', 'st_evidence_%d' % idx), VERIF_BUILD_DIR=os.path.join(VERIF, '.build', 'st_build_%d' % idx),
+                   VERIF_REPLAY_OUT=os.path.join(VERIF, '.build', 'st_evidence_%d' % idx))
         r = subprocess.run([os.path.join(VERIF, 'check'), prop], capture_output=True, text=True, env=env, cwd=VERIF)
         got = {0: 'pass', 1: 'violation', 2: 'undecided'}.get(r.returncode, 'rc%d' % r.returncode)
         res.append('%s:%s' % (prop, got))
